@@ -858,10 +858,8 @@ func handleMessage(peer *Peer, m protocol.Message) error {
 		if len(peer.requested) >= reqQ {
 			// head drop
 			r := peer.requested[0]
-			err := reject(peer, r.Index, r.Begin, r.Length)
-			if err == nil {
-				peer.requested = peer.requested[1:]
-			}
+			reject(peer, r.Index, r.Begin, r.Length)
+			peer.requested = peer.requested[1:]
 		}
 		peer.requested = append(peer.requested,
 			Requested{m.Index, m.Begin, m.Length})
